@@ -45,6 +45,8 @@ GATES = {
     "segwit-flag": ["tx:segwit-flag-true", "tx:segwit-flag-false"],
     "bad-sigs": ["badsig:" + c for c in BAD_SIG_CLASSES],
     "networks": ["net:mainnet", "net:testnet"],
+    "unusual-valid-sigs": ["goodsig:short-r-nonce-half", "goodsig:short-r-high-s-flipped-nonce"],
+    "psbt-from-signed-tx": ["from-signed:p2pkh"],
 }
 
 
@@ -310,7 +312,7 @@ def one_wallet(ctx, rng, kind, m, n, network, n_in, segwit_flag, quick):
     ctx.count("net:" + network)
     ctx.count("tx:segwit-flag-true" if segwit_flag else "tx:segwit-flag-false")
     wallet = Wallet(rng, kind, m, n, network)
-    sc = Scenario(rng, wallet, n_in=n_in, n_spend=rng.choice([1, 2]), with_change=rng.random() < 0.7, segwit_flag=segwit_flag)
+    sc = Scenario(rng, wallet, n_in=n_in, n_spend=rng.choice([1, 2]), with_change=rng.random() < 0.7, segwit_flag=segwit_flag, shared_prev=n_in >= 2 and rng.random() < 0.4)
     o = outcome(sc.create_psbt)
     if o[0] == "exc":
         ctx.violation(f"psbt-create-raises:{kind}", o[1], {"op": "wallet", "kind": kind, "m": m, "n": n})
@@ -377,6 +379,7 @@ def one_wallet(ctx, rng, kind, m, n, network, n_in, segwit_flag, quick):
         ctx.sample({"kind": kind, "m": m, "n": n, "inputs": n_in, "network": network, "base_psbt": base[:200],
                     "histories": {str(S): [(d[0], list(d[1])) for d, _, _ in g] for S, g in list(results.items())[:4]}})
     bad_partial_sigs(ctx, rng, wallet, sc, base, cache)
+    unusual_partial_sigs(ctx, rng, wallet, sc, base, cache)
 
 
 # ---- negative: partial signatures that do not verify ---------------------------------------------------------------
@@ -463,6 +466,123 @@ def bad_partial_sigs(ctx, rng, wallet, sc, base, cache):
         ctx.case((raw,))
 
 
+# ---- positive: valid partial signatures of unusual length -----------------------------------------------------------
+HALF = pow(2, ec.N - 2, ec.N)  # nonce 1/2: r = x(G/2) has 21 bytes, so the DER signature has ~59 bytes
+
+
+def _child_secret(wallet, sec):
+    for (branch, idx), ch in list(wallet._cache.items()):
+        for who, c in enumerate(ch):
+            if c.sec() == sec:
+                return wallet.roots[who].traverse(wallet.path_of(branch, idx)).private_key.secret
+    return None
+
+
+def unusual_partial_sigs(ctx, rng, wallet, sc, base, cache):
+    """A cosigner that grinds for short signatures (here nonce 1/2) or emits a high-S value hands over partial signatures
+    the reference calls valid: the PSBT must load, round-trip, and finalise to an authorised transaction."""
+    from props.psbtlib import reparse
+
+    if 0 not in cache:
+        return
+    signed = cache[0]
+    m = rp.decode(signed)
+    model = m["tx"]
+    for cls in ("short-r-nonce-half", "short-r-high-s-flipped-nonce"):
+        mm = {"global": list(m["global"]), "ins": [list(x) for x in m["ins"]], "outs": [list(x) for x in m["outs"]]}
+        done = 0
+        for k, imap in enumerate(mm["ins"]):
+            for j, (key, val) in enumerate(imap):
+                if key[:1] != b"\x02":
+                    continue
+                secret = _child_secret(wallet, key[1:])
+                if secret is None:
+                    continue
+                z = int.from_bytes(digest_for_input(sc, model, k), "big")
+                nonce = HALF if cls == "short-r-nonce-half" else ec.N - HALF
+                r_, s_, _ = ec.ecdsa_sign_with_k(secret, z, nonce)
+                if not ec.ecdsa_verify(ec.parse_sec(key[1:]), z, r_, s_):
+                    raise RuntimeError("harness: crafted partial signature does not verify in the reference")
+                imap[j] = (key, ec.der(r_, s_) + b"\x01")
+                ctx.count("sig-length:%d" % len(imap[j][1]))
+                done += 1
+        if not done:
+            return
+        raw = rp.encode(mm)
+        ctx.count("goodsig:" + cls)
+        ctx.monitor("unusual-partial-sig-load")
+        case = {"op": "psbt-bytes", "raw": raw, "network": wallet.network, "stage": "goodsig:" + cls}
+        o = outcome(reparse, raw, wallet.network)
+        if o[0] == "exc":
+            ctx.violation(f"psbt-refuses-valid-partial-sig:{cls}", f"{wallet.kind}: {o[1]}", case)
+            continue
+        check_roundtrip(ctx, raw, wallet, "unusual-sig")
+        if wallet.m == 1:
+            of = outcome(op_finalize, raw, wallet)
+            if of[0] == "exc":
+                ctx.violation(f"final-tx-refused-with-valid-short-sig:{wallet.kind}", of[1], case)
+        ctx.case((raw,))
+
+
+# ---- a PSBT made from a transaction that was already signed the plain way -------------------------------------------
+def from_signed_tx(ctx, rng, kind, network):
+    """tx.sign_input() on every input, tx.id() queried (as a caller logging it would), then PSBT.create(tx): the
+    scriptSigs / witnesses move into the PSBT inputs.  The embedded transaction must be the stripped one (also by its
+    own hash), the PSBT must round-trip, combine with its own re-parse as a no-op, and extract the signed transaction."""
+    from props.psbtlib import Scenario, Wallet, reparse
+    from buidl.psbt import PSBT
+
+    wallet = Wallet(rng, kind, 1, 1, network)
+    sc = Scenario(rng, wallet, n_in=rng.choice([1, 2]), n_spend=1, with_change=rng.random() < 0.5, segwit_flag=kind != "p2pkh")
+    tx = sc.tx
+    case = {"op": "from-signed", "kind": kind, "network": network, "seeds": wallet.seeds}
+    for k, (prev, vout, sats, (branch, idx)) in enumerate(sc.funding):
+        spk, redeem, ws, ch = wallet.scripts(branch, idx)
+        tx.tx_ins[k]._value, tx.tx_ins[k]._script_pubkey = sats, spk
+        priv = wallet.roots[0].traverse(wallet.path_of(branch, idx)).private_key
+        o = outcome(lambda: tx.sign_input(k, priv, redeem_script=redeem) if redeem is not None else tx.sign_input(k, priv))
+        if o[0] == "exc" or not o[1]:
+            ctx.count("from-signed:plain-signing-unavailable:" + kind)
+            return
+    signed_id, signed_bytes = tx.id(), tx.serialize()
+    signed_model = model_of_tx(tx)
+    stripped = tc.encode_stripped(dict(signed_model, ins=[dict(i, script=b"", witness=[]) for i in signed_model["ins"]]))
+    ctx.count("from-signed:" + kind)
+    ctx.monitor("from-signed-tx")
+    o = outcome(lambda: PSBT.create(tx, tx_lookup=sc.tx_lookup, pubkey_lookup=sc.pubkey_lookup, redeem_lookup=sc.redeem_lookup, witness_lookup=sc.witness_lookup))
+    if o[0] == "exc":
+        ctx.count("from-signed:create-refuses:" + kind)
+        return
+    p = o[1]
+    ob = outcome(p.serialize)
+    if ob[0] == "exc":
+        ctx.violation("from-signed:serialize-raises", ob[1], case)
+        return
+    raw = ob[1]
+    case["raw"] = raw
+    m = rp.decode(raw)
+    if m["tx_raw"] != stripped:
+        ctx.violation("from-signed:embedded-tx-not-stripped", "the global transaction is not the signed one with scripts emptied", case)
+    import hashlib
+
+    want_hash = hashlib.sha256(hashlib.sha256(stripped).digest()).digest()[::-1]
+    oh = outcome(p.tx_obj.hash)
+    if oh[0] == "ok" and oh[1] != want_hash:
+        ctx.violation("from-signed:tx-object-reports-stale-hash", f"tx_obj.hash() = {oh[1].hex()} (signed id {signed_id}), embedded tx hashes to {want_hash.hex()}", case)
+    check_roundtrip(ctx, raw, wallet, "from-signed")
+    oc = outcome(lambda: (p.combine(reparse(raw, network)), p.serialize())[1])
+    if oc[0] == "exc":
+        ctx.violation("from-signed:self-combine-raises", oc[1], case)
+    elif oc[1] != raw:
+        ctx.violation("from-signed:self-combine-changes-bytes", "combine with own re-parse is not a no-op", case)
+    of = outcome(lambda: reparse(raw, network).final_tx().serialize())
+    if of[0] == "exc":
+        ctx.violation("from-signed:final-tx-raises", of[1], case)
+    elif of[1] != signed_bytes:
+        ctx.violation("from-signed:final-tx-differs-from-signed-tx", "extraction does not give back the signed transaction", case)
+    ctx.case((raw, "from-signed"))
+
+
 # ---- shards ---------------------------------------------------------------------------------------------------------
 PLAN = [
     # kind, m, n, inputs
@@ -496,6 +616,7 @@ def run_shard(desc, ctx):
         one_wallet(ctx, rng, kind, m, n, net, n_in, segwit_flag=(idx + rnd) % 3 == 0, quick=quick)
         sk = ["p2pkh", "p2wpkh", "p2sh-p2wpkh"][(idx + rnd) % 3]
         one_wallet(ctx, rng, sk, 1, 1, "testnet" if net == "mainnet" else "mainnet", 1 if quick else rng.choice([1, 2, 3]), segwit_flag=(idx + rnd) % 2 == 0, quick=quick)
+        from_signed_tx(ctx, rng, ["p2pkh", "p2wpkh", "p2sh-p2wpkh"][(idx + rnd + 1) % 3], net)
         if ctx.out_of_time():
             return
 
@@ -520,3 +641,6 @@ def replay(case, ctx):
     elif op in ("history", "history-pair", "wallet"):
         rng = ctx.rng("replay")
         one_wallet(ctx, rng, case.get("kind", "p2wsh"), case.get("m", 1), case.get("n", 1), case.get("network", "mainnet"), 1, False, True)
+    elif op == "from-signed":
+        # re-run the flow for the same wallet kind (the wallet itself is rebuilt from the shard's PRNG in a full run)
+        from_signed_tx(ctx, ctx.rng("replay"), case.get("kind", "p2pkh"), case.get("network", "mainnet"))
